@@ -268,6 +268,24 @@ def family_HR(two_sided, full_quotas=False, sizes=None):
                     yield make2(ns, nh, sprefs, lprefs, pq)
 
 
+def family_Q3(two_sided=False, maxuq=3):
+    """3 students x 2 projects x 2 lecturers (lect = identity), strict lists
+    over {1,2}, project quotas from a small set, heterogeneous lecturer
+    (target, uq) with lq = 0: shapes where a smaller matching is the optimum
+    of a load criterion and is enumerated after a larger one."""
+    lists = (((1,),), ((2,),), ((1,), (2,)), ((2,), (1,)))
+    pqs = ((0, 1), (0, 2), (0, 3), (1, 2))
+    lts = tuple((0, t, uq) for uq in range(1, maxuq + 1) for t in range(uq + 1))
+    for sprefs in itertools.product(lists, repeat=3):
+        lprefs = None
+        if two_sided:
+            lprefs = tuple(tuple((x,) for x in acceptable_students(sprefs, (1, 2), k))
+                           for k in (1, 2))
+        for pq in itertools.product(pqs, repeat=2):
+            for lq3 in itertools.product(lts, repeat=2):
+                yield make3(3, 2, 2, sprefs, (1, 2), lprefs, pq, lq3)
+
+
 def family_W(big=True):
     """Multi-digit ids: 12 projects (2 students) and 11 students (2 projects).
     big=False leaves out the 11-student instances."""
